@@ -10,7 +10,7 @@ LIB_SRCS = ['Lib/structs/map.c', 'Lib/utils/mem.c', 'Lib/utils/log.c']
 RULE = ('scripts new/put/get/has/del/len/clear/free/seq/oom/iterate[rm-all|rm-at|stop-at|err-at|del-at|put-at]/it new|next|get|key|set|rm '
         'over all 8 flag combinations x dtor; key sets: random k<N>; adversarial sets found by brute force with the hash of map.c '
         '(all keys in one home slot; keys homing on the last slots -> clusters wrapping the table end; two-home chains longer than '
-        'half the table (D-05a); one key per home over size/2+1 consecutive homes (D-05b)); growth 256->512->1024; the iteration '
+        'half the table (D-05a); one key per home over size/2+1 consecutive homes (D-05b)); exact fill levels 191..257; growth 256->512->1024; the iteration '
         'order (seq) is printed after mutating calls; non-trivial = >=3 puts and a removal or an iteration')
 EXHAUSTIVE = {}
 
@@ -523,8 +523,10 @@ def spec(lines, out):
             items = o.split()[1:]
             exp = sorted('%s:%d' % kv for kv in d.items())
             if not o.startswith('seq') or sorted(items) != exp:
-                v.append(('iterate', '`seq` lists %d entries %s…, the dictionary has %d: not every live entry exactly once'
-                          % (len(items), items[:6], len(d))))
+                extra = sorted(set(items) - set(exp)); miss = sorted(set(exp) - set(items))
+                dup = [x for x, c in collections.Counter(items).items() if c > 1]
+                v.append(('iterate', '`seq` (iteration over the whole map) lists %d entries, the dictionary has %d; '
+                          'not live: %s, never visited: %s, visited twice: %s' % (len(items), len(d), extra[:4], miss[:4], dup[:4])))
         elif op == 'iterate':
             start = dict(d)
             kind = t[1] if len(t) > 1 else ''
